@@ -36,6 +36,11 @@ def classify(prop, kind, item, prog):
     pj = partial_joins(prog)
     if kind == 'task_success_final' and item.get('task') in pj and item.get('to') in ('WAITING', 'RUNNING', 'SUCCESS', 'ERROR', 'DELAYED'):
         return {'kind': 'partial-join-reset-by-late-branch'}
+    if kind == 'task_success_final' and item.get('after_rerun') and item.get('to') in ('WAITING', 'RUNNING') and \
+            any(t['name'] == item.get('task') and t.get('join') is not None for t in prog['tasks']):
+        # an explicit rerun of a failed task dispatches its on-clauses again: a join behind it that had already
+        # run is deferred (Task.defer) and runs again - the rerun flavour of the finished-join reset
+        return {'kind': 'finished-join-reopened-after-rerun'}
     if kind == 'join' and item.get('join') in pj and item.get('what') in (
             'more than one execution of a join', 'join started more than once'):
         return {'kind': 'partial-join-reset-by-late-branch'}
